@@ -38,8 +38,13 @@ def isWrite (name : String) : Bool :=
 def isFailure (res : String) : Bool := res.startsWith "err:"
 
 def stepCall (s : St) (e : String) : St :=
-  let (name, res) := parseCall e
+  let (name, res0) := parseCall e
   let hit (h : String) (s : St) : St := { s with hits := s.hits ++ [h] }
+  -- "=ok!notx": the harness's transactional store saw this write arrive, while a transaction was open, with a
+  -- context that does not carry the transaction
+  let escaped := res0.endsWith "!notx"
+  let res := if escaped then (res0.dropEnd 5).toString else res0
+  let s := if escaped then hit "C18:write-outside-open-transaction" s else s
   match name with
   | "newId" => s
   | "beginTx" =>
